@@ -57,6 +57,9 @@ theorem C13_tables_cpp11 :
 theorem C13_encbyte_cpp11 : ∀ c, c < 256 → cpp11_encbyte.getD c 0 = urlencodedByte c := by decide +kernel
 theorem C13_hexnum_cpp11 : ∀ c, c < 256 → isHex c = true → cpp11_hexnum.getD c 0 = hexVal c := by decide +kernel
 theorem C13_misc_cpp11 : cpp11_pctbyte_ok = true ∧ cpp11_widemembers = 0 ∧ cpp11_partstart = Impl.kPartStart := by decide +kernel
+/-- every table lookup (and a parse / encode_url_component) made DURING STATIC INITIALIZATION, before the library's own
+    initializers, gives the answer it gives afterwards: the tables are constant-initialized in this mode -/
+theorem C13_static_init_cpp11 : cpp11_earlydiff = 0 := by decide
 
 /-- the scheme table as observed through `get_scheme_info` equals the model's scheme functions -/
 theorem C13_schemes_cpp11 : cpp11_schemes.all schemeEntryOk = true := by decide +kernel
@@ -83,6 +86,9 @@ theorem C13_tables_cpp14 :
 theorem C13_encbyte_cpp14 : ∀ c, c < 256 → cpp14_encbyte.getD c 0 = urlencodedByte c := by decide +kernel
 theorem C13_hexnum_cpp14 : ∀ c, c < 256 → isHex c = true → cpp14_hexnum.getD c 0 = hexVal c := by decide +kernel
 theorem C13_misc_cpp14 : cpp14_pctbyte_ok = true ∧ cpp14_widemembers = 0 ∧ cpp14_partstart = Impl.kPartStart := by decide +kernel
+/-- every table lookup (and a parse / encode_url_component) made DURING STATIC INITIALIZATION, before the library's own
+    initializers, gives the answer it gives afterwards: the tables are constant-initialized in this mode -/
+theorem C13_static_init_cpp14 : cpp14_earlydiff = 0 := by decide
 
 /-- the scheme table as observed through `get_scheme_info` equals the model's scheme functions -/
 theorem C13_schemes_cpp14 : cpp14_schemes.all schemeEntryOk = true := by decide +kernel
@@ -109,6 +115,9 @@ theorem C13_tables_cpp17 :
 theorem C13_encbyte_cpp17 : ∀ c, c < 256 → cpp17_encbyte.getD c 0 = urlencodedByte c := by decide +kernel
 theorem C13_hexnum_cpp17 : ∀ c, c < 256 → isHex c = true → cpp17_hexnum.getD c 0 = hexVal c := by decide +kernel
 theorem C13_misc_cpp17 : cpp17_pctbyte_ok = true ∧ cpp17_widemembers = 0 ∧ cpp17_partstart = Impl.kPartStart := by decide +kernel
+/-- every table lookup (and a parse / encode_url_component) made DURING STATIC INITIALIZATION, before the library's own
+    initializers, gives the answer it gives afterwards: the tables are constant-initialized in this mode -/
+theorem C13_static_init_cpp17 : cpp17_earlydiff = 0 := by decide
 
 /-- the scheme table as observed through `get_scheme_info` equals the model's scheme functions -/
 theorem C13_schemes_cpp17 : cpp17_schemes.all schemeEntryOk = true := by decide +kernel
@@ -135,6 +144,9 @@ theorem C13_tables_cpp20 :
 theorem C13_encbyte_cpp20 : ∀ c, c < 256 → cpp20_encbyte.getD c 0 = urlencodedByte c := by decide +kernel
 theorem C13_hexnum_cpp20 : ∀ c, c < 256 → isHex c = true → cpp20_hexnum.getD c 0 = hexVal c := by decide +kernel
 theorem C13_misc_cpp20 : cpp20_pctbyte_ok = true ∧ cpp20_widemembers = 0 ∧ cpp20_partstart = Impl.kPartStart := by decide +kernel
+/-- every table lookup (and a parse / encode_url_component) made DURING STATIC INITIALIZATION, before the library's own
+    initializers, gives the answer it gives afterwards: the tables are constant-initialized in this mode -/
+theorem C13_static_init_cpp20 : cpp20_earlydiff = 0 := by decide
 
 /-- the scheme table as observed through `get_scheme_info` equals the model's scheme functions -/
 theorem C13_schemes_cpp20 : cpp20_schemes.all schemeEntryOk = true := by decide +kernel
